@@ -228,6 +228,55 @@ theorem C02_parameter_block_paths_differ :
         deStream .utf8 Jomini.TextE2E.tyParam ((TextReader.sliceTokens Jomini.TextE2E.bytesParam).toks.map Jomini.TextE2E.toRTok) :=
   Jomini.TextE2E.bytesDiffer_sound Jomini.TextE2E.param_differ
 
+/-! ### fixed-length targets (tuples, `[T; n]`) -/
+
+/-- A fixed-length target on an array that is LONGER than the target, the exact behaviour of both paths
+(elements that fit): the tape path reads the tuple's elements from the front and never looks at the rest
+-- its result is `valueOfN`, whose `tupVals` takes the prefix; the reader path demands the closing brace
+after the last element it was asked for -- its result is the first element error if there is one, and
+the class `other` ("Expected sequence to be terminated with an end token") otherwise.  (On an array that
+is not longer both paths return `valueOfN`, an `invalid length` error for a shorter one included:
+`Fits.tup` in `C02_stream_eq_spec` / `C02_tape_eq_spec` / `C02_paths_agree`.) -/
+theorem C02_tuple_longer (enc : Enc) (f : Nat) (ts : List Ty) (vs : List Node) (o : Op)
+    (hall : ∀ t x, (t, x) ∈ List.zip ts (expandNodes vs) → FitsT enc false t x)
+    (hwf : (Node.arr vs).wf = true) (hlen : ts.length < (expandNodes vs).length) (hh : Ty.heightTs ts < f) :
+    (∀ (toks : List TTok) (i : Nat) (b : Bool), SitsAt toks i (tapeNode i (.arr vs)) →
+      tde enc toks (f + 1) (.tup ts) (vkOf b o i) = valueOfN enc (f + 1) (.tup ts) o (.arr vs)) ∧
+    (∀ (rest : List RTok),
+      sde enc (f + 1) (.tup ts) (nodeHead (.arr vs)) o (nodeTail (.arr vs) ++ rest) =
+        (match tupVals (fun t x => valueOfN enc f t .eq x) ts (expandNodes vs) with
+         | .error e => .error e
+         | .ok _ => .error .other)) :=
+  ⟨fun toks i b hsit => tde_tup_any_length enc toks f ts vs i b o hall hwf hsit hh,
+   fun rest => sde_tup_longer enc f ts vs o rest (fun t x hm => fitsT_fits enc (hall t x hm)) hwf hlen hh⟩
+
+/-- The recorded finding `tuple-longer-than-target` on the models, from the same BYTES
+`id=1 arr={ 1 2 3 }` into `st(id:u8; arr:(i32, i32))`: the tape path accepts and returns the prefix
+`(1, 2)`, the reader path refuses. -/
+theorem C02_tuple_longer_paths_differ :
+    ∃ (T : List TextTape.Tok) (b : Bool),
+      TextTape.parse Jomini.TextE2E.bytesTupleLong = .ok T b ∧
+      (TextReader.sliceTokens Jomini.TextE2E.bytesTupleLong).out = .end_ ∧
+      deTape .utf8 Jomini.TextE2E.tyTupleLong (Jomini.TextE2E.toTextDeTape T)
+        = .ok (.st [(Jomini.TextE2E.keyId, .uint 1), (Jomini.TextE2E.keyArr, .tup [.int 1, .int 2])]) ∧
+      deStream .utf8 Jomini.TextE2E.tyTupleLong
+          ((TextReader.sliceTokens Jomini.TextE2E.bytesTupleLong).toks.map Jomini.TextE2E.toRTok)
+        = .error .other := by
+  have h2 : deStream .utf8 Jomini.TextE2E.tyTupleLong
+      ((TextReader.sliceTokens Jomini.TextE2E.bytesTupleLong).toks.map Jomini.TextE2E.toRTok) = .error .other := by
+    rw [Jomini.TextE2E.tupleLong_lex.1]; rfl
+  exact ⟨_, _, Jomini.TextE2E.tupleLong_parse, Jomini.TextE2E.tupleLong_lex.2, by rfl, h2⟩
+
+/-- fitting length: equal values on both paths; a shorter array: both refuse (`invalid length`) -/
+example :
+    let ty : Ty := .st [([97], .tup [.i32, .str])]
+    let d2 : Doc := [(.plain [97], .eq, .arr [.leaf ⟨[53], false⟩, .leaf ⟨[120], true⟩])]
+    let d1 : Doc := [(.plain [97], .eq, .arr [.leaf ⟨[53], false⟩])]
+    deTape .utf8 ty (tapeOf d2) = .ok (.st [([97], .tup [.int 5, .str [120]])]) ∧
+    deStream .utf8 ty (lexemes d2) = .ok (.st [([97], .tup [.int 5, .str [120]])]) ∧
+    deTape .utf8 ty (tapeOf d1) = .error .other ∧ deStream .utf8 ty (lexemes d1) = .error .other := by
+  refine ⟨by rfl, by rfl, by rfl, by rfl⟩
+
 /-! ### every target type: error agreement and where it ends -/
 
 /-- Error agreement for EVERY root target type (not only fitting ones): for every well-formed
